@@ -138,6 +138,52 @@ theorem tank_polls (lag : Nat) : ∀ p ∈ tankPolls, ∀ {ts : TSt} {t : MsgId}
   exact poll_const (tank_cert lag) (List.all_eq_true.mp (tank_checks lag) p hp) hr hin ht harm
 
 
+/-! ## Polling phases with a time limit (C05 (iii), C17 periods)
+
+`StayPoll L`: the controller stays in the phase and every poll delivered during the stay fired no later than `L` after the
+entry.  That is what the decision theorems give: a tank poll that finds more than 2 h (fill) / 6 h (low) in the phase
+requests the emergency stop instead of re-arming (`C05.limits`, compared with the real methods on boundary instants); a
+wintering poll that finds the period elapsed while it is cold or the temperature unknown requests the stir
+(`C17` policy theorems on `Model/Winter.lean`).  Conclusion: while the poll is the armed call the stay has lasted at
+most L + one poll period + lag – the mains valve is open for at most the limit + 5 s + lag; the pause between two stirs is
+at most the period + 2 min + lag while it is cold. -/
+theorem tank_limit_phases (lag : Nat) : ∀ p ∈ tankPolls.take 2, ∀ (L : Nat) {ts tsE ts1 : TSt} {e : TEv} {t : MsgId},
+    TReach (tank lag) ts → inP p.1 ts.s = false → TStep (tank lag) ts e tsE → inP p.1 tsE.s = true →
+    StayPoll (tank lag) p.1 L tsE ts1 → t ∈ p.1.t → ts1.s.armed = some t → ts1.now ≤ tsE.now + L + p.2 + lag := by
+  intro p hp L ts tsE ts1 e t hr hout hstep hin hstay ht harm
+  have hpoll := List.all_eq_true.mp (tank_checks lag) p (List.mem_of_mem_take hp)
+  simp only [pollOK, Bool.and_eq_true] at hpoll
+  have hnb := List.all_eq_true.mp (limit_phase_checks lag).1 p hp
+  have hnr : p.1.restart = [] := by
+    simp only [tankPolls, List.take] at hp
+    rcases List.mem_cons.mp hp with rfl | hp
+    · rfl
+    · rcases List.mem_cons.mp hp with rfl | hp
+      · rfl
+      · simp at hp
+  exact staypoll_time (tank_cert lag) hnb hpoll.1.1 hpoll.1.2 hnr hr hout hstep hin hstay ht harm
+
+theorem filtration_wintering_pause (lag : Nat) (L : Nat) {ts tsE ts1 : TSt} {e : TEv} {t : MsgId}
+    (hr : TReach (filtration lag) ts) (hout : inP filtrationPolls[7].1 ts.s = false) (hstep : TStep (filtration lag) ts e tsE)
+    (hin : inP filtrationPolls[7].1 tsE.s = true) (hstay : StayPoll (filtration lag) filtrationPolls[7].1 L tsE ts1)
+    (ht : t ∈ filtrationPolls[7].1.t) (harm : ts1.s.armed = some t) : ts1.now ≤ tsE.now + L + 240 + lag := by
+  have hpoll := List.all_eq_true.mp (filtration_poll_checks lag) filtrationPolls[7] (List.getElem_mem _)
+  simp only [pollOK, Bool.and_eq_true] at hpoll
+  exact staypoll_time (filtration_cert lag) (filtration_wintering_waiting_norearm lag) hpoll.1.1 hpoll.1.2 rfl hr hout hstep hin hstay ht harm
+
+theorem swim_wintering_pause (lag : Nat) (L : Nat) {ts tsE ts1 : TSt} {e : TEv} {t : MsgId}
+    (hr : TReach (swim lag) ts) (hout : inP swimPolls[2].1 ts.s = false) (hstep : TStep (swim lag) ts e tsE)
+    (hin : inP swimPolls[2].1 tsE.s = true) (hstay : StayPoll (swim lag) swimPolls[2].1 L tsE ts1)
+    (ht : t ∈ swimPolls[2].1.t) (harm : ts1.s.armed = some t) : ts1.now ≤ tsE.now + L + 240 + lag := by
+  have hpoll := List.all_eq_true.mp (Bool.and_eq_true _ _ ▸ swim_checks lag).2 swimPolls[2] (List.getElem_mem _)
+  simp only [pollOK, Bool.and_eq_true] at hpoll
+  exact staypoll_time (swim_cert lag) (limit_phase_checks lag).2 hpoll.1.1 hpoll.1.2 rfl hr hout hstep hin hstay ht harm
+
+/-- the phases meant above are the tank's `fill` and `low`, and the two `wintering_waiting` phases, with 5 s resp. 2 min polls -/
+example : (tankPolls.take 2).map (fun p => (p.1.P, p.2)) = [([Tank.leaf_fill], 10), ([Tank.leaf_low], 10)] ∧
+    filtrationPolls[7].1.P = [Filtration.leaf_wintering_waiting] ∧ filtrationPolls[7].2 = 240 ∧
+    swimPolls[2].1.P = [Swim.leaf_wintering_waiting] ∧ swimPolls[2].2 = 240 := by decide
+
 /-! ## Non-vacuity: a concrete timed run of Heating enters `recovering` from outside and stays there
 
 halt --wait@0--> waiting --heat@1--> heating --wait@2--> recovering (recover_done armed at 2 with 600) --enable@500-->
